@@ -208,3 +208,38 @@ def stmt_is(stmt, pattern: str, env0=None) -> bool:
     if kind == "expr":
         pat = [ast.Expr(value=pat)]
     return len(pat) == 1 and match(pat[0], stmt, dict(env0 or {}))
+
+
+def alpha(text: str) -> str:
+    """``text`` with every plain variable (same notion as _auto) renamed to
+    v0, v1, ... in order of first occurrence: keys built from code text stay
+    the same under local/parameter renames.  Unparseable text is returned
+    unchanged."""
+    src, suffix = text, ""
+    try:
+        tree = ast.parse(src)
+    except SyntaxError:
+        if text.startswith(("for ", "async for ")):
+            try:
+                tree = ast.parse(text + ": pass")
+                suffix = ": pass"
+            except SyntaxError:
+                return text
+        else:
+            return text
+    funcs = {id(n.func) for n in ast.walk(tree)
+             if isinstance(n, ast.Call) and isinstance(n.func, ast.Name)}
+    ren: dict[str, str] = {}
+
+    class V(ast.NodeTransformer):
+        def visit_Name(self, n):
+            if id(n) in funcs or n.id in _BUILTINS or n.id[:1].isupper():
+                return n
+            if n.id.startswith("_") and n.id.lstrip("_")[:1].isupper():
+                return n
+            ren.setdefault(n.id, f"v{len(ren)}")
+            return ast.copy_location(ast.Name(id=ren[n.id], ctx=n.ctx), n)
+    out = ast.unparse(V().visit(tree))
+    if suffix:
+        out = out.split(":\n")[0] if out.endswith("pass") else out
+    return " ".join(out.split())
